@@ -101,8 +101,33 @@ Definition mk_line (t : nat * nat * bool) : line :=
 Definition run (i : input) : output := nest (map mk_line i).
 Definition out_eqb : output -> output -> bool := list_eqb (pair_eqb (option_eqb Nat.eqb) Bool.eqb).
 
-(* monitor: one entry per line, every parent is an earlier opener; and either some line is flagged or
-   every non-whitespace line has the parent the off-side rule gives it *)
+(* monitor, per line: one entry per line; every parent is an earlier opener; and every unflagged
+   instruction line sits exactly one level (4) below its owner -- the nearest preceding instruction
+   line with a smaller character, not counting flagged leaves -- which must open a body and be its
+   parent; a line with no owner is at character 0 under the root.  (So a line whose indentation fits
+   nothing is flagged, never silently re-nested.) *)
+Fixpoint owner (c : nat) (prev : list (nat * line * bool)) : option (nat * line) :=
+  match prev with
+  | [] => None
+  | (j, ln, fl) :: prev' =>
+      if is_ws (l_kind ln) || (fl && negb (is_opener (l_kind ln))) then owner c prev'
+      else if l_char ln <? c then Some (j, ln) else owner c prev'
+  end.
+
+Fixpoint lines_ok (prev : list (nat * line * bool)) (k : nat) (ls : list line) (o : output) : bool :=
+  match ls, o with
+  | ln :: ls', (par, fl) :: o' =>
+      (if is_ws (l_kind ln) || fl then true
+       else match owner (l_char ln) prev with
+            | None => Nat.eqb (l_char ln) 0 && option_eqb Nat.eqb par None
+            | Some (j, lj) => is_opener (l_kind lj) && Nat.eqb (l_char lj + 4) (l_char ln)
+                              && option_eqb Nat.eqb par (Some j)
+            end)
+      && lines_ok ((k, ln, fl) :: prev) (S k) ls' o'
+  | [], [] => true
+  | _, _ => false
+  end.
+
 Definition holds_b (i : input) (o : output) : bool :=
   let ls := map mk_line i in
   Nat.eqb (length o) (length ls)
@@ -110,6 +135,4 @@ Definition holds_b (i : input) (o : output) : bool :=
                        | None => true
                        | Some p => Nat.ltb p (fst t) && is_opener (l_kind (nth p ls {| l_char := 0; l_kind := L; l_err := false |}))
                        end) (combine (seq 0 (length o)) o)
-  && (existsb snd o
-      || forallb (fun t => let '(ln, (par, _), sp) := t in is_ws (l_kind ln) || option_eqb Nat.eqb par sp)
-           (combine (combine ls o) (nest_spec ls))).
+  && lines_ok [] 0 ls o.
